@@ -193,7 +193,7 @@ func judgeC03(c *fw.Ctx, sc *SnapCase) {
 
 func init() {
 	fw.Register(&fw.Prop{
-		ID: "C03", Cases: tierN(20000, 600000),
+		ID: "C03", Cases: tierN(300000, 4000000),
 		Run: func(c *fw.Ctx) {
 			sc, why := genC03Case(c.Rng)
 			if sc == nil {
